@@ -102,6 +102,9 @@ def build_module(ctx, case, ifaces, template=None, extra_cfg=None, extra_files=N
     if extra_files:
         files.update(extra_files)
     gomod = GOMOD_SPELLINGS[case.get("gomod", "plain")] + GOMOD_REST.replace("\n", "\r\n" if case.get("gomod") == "crlf" else "\n")
+    if case.get("golang"):
+        # the language version of the module the mocks are compiled in (libraries keep an old `go` directive while a current mockery generates their mocks)
+        gomod = gomod.replace("go 1.23", "go " + case["golang"], 1)
     root = core.scratch_module(ctx, files, gomod=gomod)
     return root, {"srcdir": sdir, "srcpkg": spkg, "srcpath": srcpath, "outdir": outdir, "outpkg": outpkg, "cfg": cfg, "onefile": bool(case.get("onefile")),
                   "tags": (td.get("mock-build-tags") or None)}
